@@ -307,7 +307,30 @@ func TestSettingsGrid(t *testing.T) {
 			}
 		}
 	}
+	// large fields (the grid above ends at six tables): 7..112 full tables, and the
+	// same field one player short, registered at once before the start
+	{
+		for max := 2; max <= 10; max++ {
+			for tables := 7; tables <= 112; tables++ {
+				for _, short := range []int{0, 1} {
+					c := &gridCase{Max: max, Min: max - max/3, N: tables*max - short, Batch: 0}
+					w := runGrid(c, prop, st)
+					st.Evaluations++
+					st.Class("large-field")
+					if w.V != nil {
+						st.Violations++
+						b, _ := json.Marshal(c)
+						p := vlib.WriteReplay(&vlib.Replay{Property: prop, Harness: "mtt", Kind: "grid", Case: b, Violation: w.V})
+						fmt.Printf("HARNESS-VIOLATION property=%s signature=%q replay=%s\n   %s\n", prop, w.V.Signature, p, w.V.Detail)
+						t.Fail()
+						return
+					}
+				}
+			}
+		}
+	}
 	st.Count("distinct_nontrivial_enumerated", nt)
+	st.Sample(gridCase{Max: 8, Min: 6, N: 392, Batch: 0})
 	st.Sample(gridCase{Max: 6, Min: 5, N: 13, Batch: 0})
 	st.Sample(gridCase{Max: 10, Min: 2, N: 60, Batch: 3})
 }
